@@ -36,25 +36,26 @@ const tabSize = 8
 // the methods Lex(*<prefix>SymType) int and Error(string).
 type yyLex struct {
 	reader        *bufio.Reader
-	filename      string     // name of the file being read
-	line          string     // current line being parsed
-	lastLine      string     // last line that was parsed
-	pos           ast.Pos    // current position within file
-	yylval        *yySymType // last token
-	eof           bool       // flag to show EOF was read
-	error         bool       // set if an error has ocurred
-	errorString   string     // the string of the error
-	indentStack   []int      // indent stack to control INDENT / DEDENT tokens
-	altIndent     []int      // the same indents measured with a tab worth one space, to find inconsistent use of tabs
-	state         int        // current state of state machine
-	currentIndent string     // whitespace at start of current line
-	interactive   bool       // set if mode "single" reading interactive input
-	exec          bool       // set if mode "exec" reading from file
-	bracket       int        // number of open [ ]
-	parenthesis   int        // number of open ( )
-	brace         int        // number of open { }
-	mod           ast.Mod    // output
-	tokens        []int      // buffered tokens to output
+	filename      string                     // name of the file being read
+	line          string                     // current line being parsed
+	lastLine      string                     // last line that was parsed
+	pos           ast.Pos                    // current position within file
+	yylval        *yySymType                 // last token
+	eof           bool                       // flag to show EOF was read
+	error         bool                       // set if an error has ocurred
+	errorString   string                     // the string of the error
+	indentStack   []int                      // indent stack to control INDENT / DEDENT tokens
+	altIndent     []int                      // the same indents measured with a tab worth one space, to find inconsistent use of tabs
+	bareGenexps   map[*ast.GeneratorExp]bool // generator expressions written as an argument without parentheses of their own
+	state         int                        // current state of state machine
+	currentIndent string                     // whitespace at start of current line
+	interactive   bool                       // set if mode "single" reading interactive input
+	exec          bool                       // set if mode "exec" reading from file
+	bracket       int                        // number of open [ ]
+	parenthesis   int                        // number of open ( )
+	brace         int                        // number of open { }
+	mod           ast.Mod                    // output
+	tokens        []int                      // buffered tokens to output
 }
 
 // Create a new lexer
@@ -950,6 +951,29 @@ func (x *yyLex) SyntaxError(s string) {
 // Call this to write formatted errors
 func (x *yyLex) SyntaxErrorf(format string, a ...interface{}) {
 	x.SyntaxError(fmt.Sprintf(format, a...))
+}
+
+// noteBareGenexp records a generator expression written as a call
+// argument without parentheses of its own: f(x for x in y)
+func (x *yyLex) noteBareGenexp(g *ast.GeneratorExp) {
+	if x.bareGenexps == nil {
+		x.bareGenexps = make(map[*ast.GeneratorExp]bool)
+	}
+	x.bareGenexps[g] = true
+}
+
+// checkArglist checks a finished argument list: a generator
+// expression without parentheses of its own must be the only argument
+func (x *yyLex) checkArglist(call *ast.Call) {
+	if len(call.Args)+len(call.Keywords) <= 1 && call.Starargs == nil && call.Kwargs == nil {
+		return
+	}
+	for _, arg := range call.Args {
+		if g, ok := arg.(*ast.GeneratorExp); ok && x.bareGenexps[g] {
+			x.SyntaxError("Generator expression must be parenthesized if not sole argument")
+			return
+		}
+	}
 }
 
 // Returns an python error for the current yyLex
